@@ -22,6 +22,9 @@
 package operators
 
 import (
+	"crypto/sha256"
+	"encoding/binary"
+	"encoding/hex"
 	"fmt"
 
 	"github.com/corazawaf/coraza/v3/experimental/plugins/plugintypes"
@@ -34,6 +37,20 @@ func memoizeDo(m plugintypes.Memoizer, key string, fn func() (any, error)) (any,
 		return m.Do(key, fn)
 	}
 	return fn()
+}
+
+// listDigest returns a digest of a list of strings for use in a cache key: a value compiled
+// from a list must be keyed by the content of the list, not by the name the list goes by in
+// one configuration. Items are length-prefixed so that the encoding is unambiguous.
+func listDigest(items []string) string {
+	h := sha256.New()
+	var n [8]byte
+	for _, s := range items {
+		binary.LittleEndian.PutUint64(n[:], uint64(len(s)))
+		h.Write(n[:])
+		h.Write([]byte(s))
+	}
+	return hex.EncodeToString(h.Sum(nil))
 }
 
 // Get returns an operator by name
